@@ -24,7 +24,7 @@ def run(rep, tier, seed):
         ok = all(sum(B[i][k] * A[k][j] for k in range(n)) % P == (1 if i == j else 0) for i in range(n) for j in range(n))
         (rep.ok if ok else rep.refute)('roundtrip:n=%d' % n, 'idft-inverse-of-dft', 'src/goldilocks_base_field.cpp',
                                        'inverse-DFT matrix x DFT matrix = identity for n=%d with w=W[%d]' % (n, lg))
-    nttrules.run_rules(rep, ('intt-null', 'powtwoinv'))
+    nttrules.run_rules(rep, ('intt-null', 'powtwoinv', 'fpround-ntt'))
     rep.sample(dict(kind='intt', example=nttcheck.describe_ntt(cfgs[len(cfgs) // 3]), configurations=len(cfgs)))
     rep.assumptions += ['bounded in shape (universal in data and representation)']
     rep.trusted = ['clang 14 lowering', 'glv interpreter', 'scalar field contracts (C01)', 'GMP model']
